@@ -17,6 +17,7 @@ FLAGS = {
              '-fno-sanitize-recover=undefined', '-D_GLIBCXX_ASSERTIONS', GUARD],
     'fast': ['g++', '-std=gnu++17', '-O2', '-g', GUARD],
     'tsan': ['clang++', '-std=gnu++17', '-O1', '-g', '-fno-omit-frame-pointer', '-fsanitize=thread', GUARD],
+    'cov': ['g++', '-std=gnu++17', '-O0', '-g', '--coverage', GUARD],
 }
 FFLAGS = ['-std=legacy', '-ffixed-line-length-132', '-fd-lines-as-comments', '-fdefault-real-8', '-fdefault-double-8',
           '-fno-automatic', '-O1', '-g', '-w']
@@ -89,13 +90,14 @@ def build_ref():
     os.makedirs(d, exist_ok=True)
     src = os.path.join(REPO, 'resources/code/decay0/decay0_2020-04-20.for')
     deps = [src] + [os.path.join(ROOT, 'ref', f) for f in ('prep_reference.py', 'mkdict.py', 'refglue.f', 'shim_c.c')]
-    hv = file_hash(deps, ' '.join(FFLAGS) + 'so-v3')
+    hv = file_hash(deps + sorted(glob.glob(os.path.join(REPO, 'bxdecay0/*low.h'))), ' '.join(FFLAGS) + 'so-v4')
     stamp = os.path.join(d, 'stamp')
     if os.path.exists(stamp) and open(stamp).read() == hv:
         return d
     sh(['python3', os.path.join(ROOT, 'ref/prep_reference.py'), src, os.path.join(d, 'decay0_ref.f')])
     sh(['python3', os.path.join(ROOT, 'ref/prep_reference.py'), src, os.path.join(d, 'decay0_refh.f'), '--harmonise'])
-    sh(['python3', os.path.join(ROOT, 'ref/mkdict.py'), os.path.join(d, 'decay0_ref.f'), os.path.join(d, 'refdict.inc')])
+    sh(['python3', os.path.join(ROOT, 'ref/mkdict.py'), os.path.join(d, 'decay0_ref.f'), os.path.join(d, 'refdict.inc'), os.path.join(d, 'reflow.f'), os.path.join(d, 'reflow.inc'), REPO])
+    sh(['gfortran-12'] + FFLAGS + ['-fPIC', '-c', os.path.join(d, 'reflow.f'), '-o', os.path.join(d, 'reflow.o')])
     sh(['gfortran-12'] + FFLAGS + ['-fPIC', '-c', os.path.join(ROOT, 'ref/refglue.f'), '-o', os.path.join(d, 'refglue.o')])
     sh(['gcc', '-O1', '-g', '-fPIC', '-c', os.path.join(ROOT, 'ref/shim_c.c'), '-o', os.path.join(d, 'shim_c.o')])
     # each flavour of the reference lives in its own shared object (loaded RTLD_LOCAL, linked -Bsymbolic) so that its
@@ -103,7 +105,7 @@ def build_ref():
     for fl in ('decay0_ref', 'decay0_refh'):
         sh(['gfortran-12'] + FFLAGS + ['-fPIC', '-c', os.path.join(d, fl + '.f'), '-o', os.path.join(d, fl + '.o')])
         sh(['gfortran-12', '-shared', '-Wl,-Bsymbolic', '-Wl,-z,now', '-o', os.path.join(d, 'lib' + fl + '.so'), os.path.join(d, fl + '.o'),
-            os.path.join(d, 'refglue.o'), os.path.join(d, 'shim_c.o'), '-lgsl', '-lgslcblas', '-lm'])
+            os.path.join(d, 'refglue.o'), os.path.join(d, 'reflow.o'), os.path.join(d, 'shim_c.o'), '-lgsl', '-lgslcblas', '-lm'])
     open(stamp, 'w').write(hv)
     return d
 
